@@ -3,7 +3,7 @@
    Coq datatypes.  No Extract Constant. *)
 From Coq Require Import ExtrOcamlBasic.
 From Coq Require Import List ZArith QArith.
-From NR Require Import Model.TimeDep Model.Engine Model.Estimates Model.Search Model.Format Model.Units Model.SolverLoop Model.PlanUnitsBuild Model.NoMix Model.Hints.
+From NR Require Import Model.TimeDep Model.Engine Model.Estimates Model.Search Model.Format Model.Units Model.SolverLoop Model.PlanUnitsBuild Model.NoMix Model.Hints Model.SolUser.
 
 Extraction "model.ml"
   TimeDep.td_empty TimeDep.set_expression TimeDep.value_at_value
@@ -19,4 +19,5 @@ Extraction "model.ml"
   SolverLoop.srun SolverLoop.arun SolverLoop.pinit SolverLoop.prun
   PlanUnitsBuild.all_sequences
   NoMix.nm_history NoMix.nm_validate NoMix.item_of_delta NoMix.nm_contents
-  Hints.estimates_with_hints.
+  Hints.estimates_with_hints
+  SolUser.sol_guard SolUser.sol_ok SolUser.sol_violation.
